@@ -228,7 +228,7 @@ class Stack:
         now = self.sim.now
         r = self.call(('send', now, dp, pf, ps, prio, sa, list(data), us(time_limit), ff),
                       lambda: self.ecu.send_pgn(dp, pf, ps, prio, sa, list(data), time_limit, ff))
-        self.sim.trace.append((now, self.idx, 'send_pgn', dp, pf, ps, prio, sa, len(data), r if isinstance(r, bool) else repr(r)))
+        self.sim.trace.append((now, self.idx, 'send_pgn', dp, pf, ps, prio, sa, len(data), r if isinstance(r, bool) else repr(r), tuple(data)))
         return r
 
     def add_timer(self, delta, cb, cookie=None, via_ca=None):
